@@ -380,6 +380,50 @@ def _one(i):
     return {'i': i, 'bad': bad, 'n': len(c['spellings']), 'renders': sum(len(r) for r in rs)}
 
 
+def malformed_cases():
+    """templates that violate the block grammar, in the four spellings: every spelling must be rejected (C07: 'raises the
+    same errors')"""
+    def sp(style, name, args='', kind='open'):
+        a = (' ' + args) if args else ''
+        if style == 3:
+            return '%%(%s%s)%s' % (name, a, ']' if kind == 'close' else '[')
+        if style == 0:
+            return ('</dtml-%s>' % name) if kind == 'close' else '<dtml-%s%s>' % (name, a)
+        if kind == 'close':
+            return ('<!--#/%s-->' if style == 1 else '<!--#end%s-->') % name
+        return '<!--#%s%s-->' % (name, a)
+    blocks = {'if': ('x', ['else', 'elif y']), 'in': ('s', ['else']), 'try': ('', ['except', 'else', 'finally']),
+              'unless': ('x', []), 'with': ('o', []), 'let': ('q=p', [])}
+    shapes = []
+    for b, (arg, conts) in blocks.items():
+        allc = ['else', 'elif y', 'except', 'finally']
+        for c in allc:
+            cn, _, ca = c.partition(' ')
+            # the end form of a continuation tag inside a block (its own or another one's), and after a proper continuation
+            shapes.append([(b, arg, 'open'), 'A', (cn, '', 'close'), 'B', (b, '', 'close')])
+            if c in conts:
+                shapes.append([(b, arg, 'open'), 'A', (cn, ca, 'open'), 'B', (cn, '', 'close'), 'C', (b, '', 'close')])
+            else:
+                shapes.append([(b, arg, 'open'), 'A', (cn, ca, 'open'), 'B', (b, '', 'close')])      # continuation of another block
+        for other in blocks:
+            if other != b:
+                shapes.append([(b, arg, 'open'), 'A', (other, '', 'close'), 'B', (b, '', 'close')])  # foreign end tag inside
+        shapes.append([(b, arg, 'open'), 'A'])                                                       # no end tag
+        shapes.append(['A', (b, '', 'close'), 'B'])                                                  # stray end tag
+        if 'else' in conts:
+            shapes.append([(b, arg, 'open'), 'A', ('else', '', 'open'), 'B', ('else', '', 'open'), 'C', (b, '', 'close')])
+    for c in ('else', 'elif', 'except', 'finally'):
+        shapes.append(['A', (c, '', 'close'), 'B'])                                                  # end form at top level
+    out = []
+    for sh in shapes:
+        spell = []
+        for style in (0, 1, 2, 3):
+            spell.append(('epfs' if style == 3 else 'html',
+                          ''.join(p if isinstance(p, str) else sp(style, *p) for p in sh)))
+        out.append({'spellings': spell, 'env': None, 'ast': None, 'malformed': True})
+    return out
+
+
 def main(tier):
     global _C
     V = common.Verdicts(PID, tier)
@@ -392,6 +436,7 @@ def main(tier):
         if max(len(s) for _, s in sp) > 500:
             continue
         cases.append({'spellings': sp, 'env': None, 'ast': ast})
+    cases += malformed_cases()
     # systematic: every option of var / in alone, every entity modifier
     for o in VAR_OPTS:
         opts = [o] + ([('size', '2')] if o[0] == 'etc' else [])
